@@ -18,7 +18,10 @@ RULE = ("random networks on rasters <= 56 cells (quick) / <= 400 (thorough) and 
         "max_length or a guaranteed stop); direction up/down; unit cell / m on projected non-square Pythagorean cells "
         "(exact) and on geographic or square grids (implementation's step lengths as parameters); masks incl. flagged "
         "start cells; max_length none / exactly on a step boundary / a quarter step off / zero / negative; starts by "
-        "index or by coordinates (interior points and, on dyadic transforms, cell edges). non-trivial = some path of "
+        "index or by coordinates (interior points and, on dyadic transforms, cell edges); geographic rasters (unit m and "
+        "unit cell) are placed anywhere between longitude -360 and 360: inside -180..180, across the antimeridian on "
+        "either side (columns continuing east of 180 / west of -180), 0..360-convention windows east of 180 and their "
+        "mirror west of -180, cells of 1/8 .. 5 degrees, latitudes -80..80. non-trivial = some path of "
         ">= 2 cells stops for a reason other than 'pit / no next cell'; distinct = SHA-1 of the case description; "
         "thorough adds the exhaustive universe of all functional graphs on <= 4 nodes x all masks x 6 max_length values")
 
@@ -27,7 +30,7 @@ KTAB = 80         # table mode: lengths are scaled by 2**KTAB
 # (xres, yres) with rational hypotenuse; all exactly representable, 4*value is an integer
 PYTH = [(3.0, -4.0), (4.0, -3.0), (3.0, 4.0), (0.75, -1.0), (6.0, -8.0), (-3.0, -4.0), (1.5, -2.0), (5.0, -12.0), (12.0, 5.0)]
 DYADIC = [(1.0, -1.0), (0.5, -0.5), (2.0, -1.0), (1.0, 1.0), (0.25, -0.5), (4.0, -2.0)]
-GEO = [(0.25, -0.25), (0.5, -0.25), (0.125, -0.25), (1.0, -1.0), (0.25, 0.25)]
+GEO = [(0.25, -0.25), (0.5, -0.25), (0.125, -0.25), (1.0, -1.0), (0.25, 0.25), (2.0, -2.0), (1.0, 1.0), (5.0, -2.5)]
 
 
 class Hang(Exception):
@@ -218,6 +221,32 @@ def terminates(nxt, s, mask, bound):
     return False
 
 
+def gen_geo_origin(rng, nrow, ncol, xres, yres):
+    """(x0, y0, placement) of a geographic raster with dyadic cell sizes. A geographic grid is not confined to
+    longitudes -180..180: regional grids continue across the antimeridian (172E..184E), global model grids use the
+    0..360 convention; the mirror images west of -180 are generated too. The west edge is an integer or lies a whole
+    number of columns from the antimeridian, so every cell edge and every eighth of a cell is an exact binary64."""
+    w, h = ncol * abs(xres), nrow * abs(yres)
+    cw = int(math.ceil(w))
+    u = rng.random()
+    if u < 0.3:
+        place, west = "lon:-180..180", float(rng.randint(-180, 180 - cw))
+    elif u < 0.5:
+        k = rng.randint(0, ncol - 1)          # k columns west of 180, at least one column east of it
+        place, west = "lon:across+180", 180.0 - k * abs(xres)
+    elif u < 0.7:
+        place, west = "lon:180..360", float(rng.randint(180, 360 - cw))
+    elif u < 0.85:
+        k = rng.randint(1, ncol)              # k columns west of -180
+        place, west = "lon:across-180", -180.0 - k * abs(xres)
+    else:
+        place, west = "lon:-360..-180", float(rng.randint(-360, -180 - cw))
+    south = float(rng.randint(-80, 80 - int(math.ceil(h))))
+    x0 = west if xres > 0 else west + w
+    y0 = south if yres > 0 else south + h
+    return x0, y0, place
+
+
 # ----------------------------------------------------------------------------------------
 def run(ctx):
     rng = ctx.rng
@@ -291,10 +320,13 @@ def _raster_case(ctx, rng, max_cells):
             xres, yres = rng.choice(DYADIC)
     else:
         kind = "cell"
-        xres, yres = rng.choice(PYTH + DYADIC)
+        if rng.random() < 0.3:
+            latlon = True                     # geographic raster traced in cell units
+            xres, yres = rng.choice(GEO)
+        else:
+            xres, yres = rng.choice(PYTH + DYADIC)
     if latlon:
-        x0 = float(rng.randint(-40, 40))
-        y0 = float(rng.randint(-20, 30)) if yres > 0 else float(rng.randint(-20 + nrow, 60))
+        x0, y0, place = gen_geo_origin(rng, nrow, ncol, xres, yres)
     else:
         x0 = rng.randint(-8, 8) * 0.5
         y0 = rng.randint(-8, 8) * 0.5
@@ -308,6 +340,8 @@ def _raster_case(ctx, rng, max_cells):
     ctx.count("family:" + fam)
     ctx.count("dir:" + direction)
     ctx.count("unit:" + kind)
+    if latlon:
+        ctx.count(place)
     reqs = []
     checks = []   # callables(ans list) -> failures
     base = {"ds": ds, "shape": list(shape), "transform": [xres, 0.0, x0, 0.0, yres, y0], "latlon": latlon,
@@ -440,6 +474,9 @@ def _raster_case(ctx, rng, max_cells):
             xs.append(x)
             ys.append(y)
         xy = (np.array([float(x) for x in xs]), np.array([float(y) for y in ys]))
+        if latlon:
+            ctx.count("xy-start:east-of-180" if any(x > 180 for x in xs) else
+                      "xy-start:west-of--180" if any(x < -180 for x in xs) else "xy-start:within-180")
         try:
             idx_impl = ints(flw.index(*xy))
         except Exception as e:
